@@ -185,8 +185,10 @@ func checkStr(r *vk.Run, c StrCase) *vk.Fail {
 				return fail("output %q has an & at %d that does not start a character reference", out, i)
 			}
 		}
-		want := strings.ReplaceAll(s, "\x00", "\ufffd")
-		if dec := html.UnescapeString(out); dec != want {
+		// NUL has no representation in HTML text (a NUL character reference is invalid): an escaper may replace it
+		// (html/template writes U+FFFD) or drop it; every other character must come back
+		dec := html.UnescapeString(out)
+		if dec != strings.ReplaceAll(s, "\x00", "\ufffd") && dec != strings.ReplaceAll(s, "\x00", "") {
 			return fail("output %q decodes to %q, not to the input", out, dec)
 		}
 	case "jsEscape":
@@ -505,7 +507,7 @@ const rule = "truncate: (E) every string of length <=5 (quick: <=4) over {a, é,
 func setup(t *testing.T) *vk.Run {
 	r := vk.Start(t, "C20", rule,
 		"character = Unicode code point (rune); for invalid UTF-8 the rune-space oracle treats each invalid byte as U+FFFD, as Go's []rune conversion does",
-		"html.UnescapeString is trusted as the decoder; NUL is allowed to come back as U+FFFD (what html/template emits)",
+		"html.UnescapeString is trusted as the decoder; escaping keeps the text (decode-back) except NUL, which HTML cannot represent: it may come back as U+FFFD (what html/template emits) or be dropped",
 		"truncate is called with well-typed options (size int, trail string); wrong-typed options are C04's concern")
 	r.Replayer("truncate", func(raw json.RawMessage) *vk.Fail {
 		var c TruncCase
